@@ -90,6 +90,8 @@ PROFILES = {
 PROFILES['C11'] = [
     ('every-variant-betting-and-dealing', 360, 3600, dict(rake_p=0.0), dict(probe_level=1, illegal=0.1, raise_=0.45, fold=0.08)),
     ('every-variant-short-stacks-showdowns', 180, 1800, dict(rake_p=0.0, stacks='short'), dict(probe_level=1, illegal=0.05, raise_=0.5, allin=0.2, fold=0.04)),
+    ('hand-history-variant-codes', 110, 1100, dict(rake_p=0.0, boards=(1,), via_phh=True, variants=['FT', 'NT', 'NS', 'PO', 'FO/8', 'F7S', 'F7S/8', 'FR', 'N2L1D', 'F2L3D', 'FB']),
+     dict(probe_level=1, illegal=0.05, raise_=0.4, fold=0.08)),
 ]
 
 NEEDS = {
@@ -295,3 +297,41 @@ def check_C11(run: Run):
         from .runner import Vacuous
         raise Vacuous(f'variants never played: {missing}')
     run.rule += ' every hand is validated against the model instantiated with Variants!Def(name, small bet, big bet)'
+
+
+ACPC_AUTOS = ['Ante posting', 'Bet collection', 'Blind or straddle posting', 'Hole cards showing or mucking', 'Runout-count selection',
+              'Hand killing', 'Chips pushing', 'Chips pulling']
+
+
+def _acpc_spec(rng, **kw):
+    spec = games.random_spec(rng, variants=kw.get('variants', ['NT', 'NT', 'FT']), boards=(1,), max_n=6, ante_p=0.0, straddle_p=0.0,
+                             rake_p=0.0, autos=ACPC_AUTOS)
+    s = rng.choice([10, 20, 50, 100, 200]) * spec['bb'] // 2
+    spec['stacks'] = [s] * spec['n']
+    spec['blinds'] = [spec['blinds'][0], spec['blinds'][1]] + [0] * (spec['n'] - 2)
+    spec['werr'] = False
+    return spec
+
+
+def check_C17(run: Run):
+    rng = random.Random(run.seed * 31 + 17)
+    q = run.tier == 'quick'
+    pol = dict(probe_level=0, probe_every=0.0, illegal=0.0, noop=0.0, runout=0.0, partial_show=0.0, explicit_cards=0.0, raise_=0.4, fold=0.1)
+    ps = _pairs(run, rng, 260 if q else 3000, twins.acpc_pair, dict(), pol, spec_fn=_acpc_spec)
+    ps += _pairs(run, rng, 100 if q else 1000, twins.acpc_pair, dict(), dict(pol, fold=0.03, raise_=0.5), spec_fn=_acpc_spec, tid0=5000)
+    for p in ps:
+        run.count('viewer_seats', len(p['views']))
+        run.count('protocol_messages', sum(len(v['msgs']) for v in p['views']))
+        if p['parsed']:
+            run.count('parsed_back')
+        if p['cut']:
+            run.count('cut_mid_hand')
+        if p['pluribus']['present']:
+            run.count('pluribus_lines')
+    twins.validate_pairs(run, ps, 'C17_protocol-output-and-parse-back', 'C17')
+    run.sample({'hand': T.short_hand(ps[0]['A']), 'seat_1_messages': ps[0]['views'][0]['msgs'][:3] if ps[0]['views'] else []})
+    run.rule = ('fixed-limit and no-limit hold\'em hands, 2-6 players, equal stacks, complete or cut before a betting action; every '
+                'viewer seat; the produced lines are tokenised syntactically and TLC compares them with Notation!AcpcMessages / '
+                'PluribusState of the operation log of the validated original hand; Pluribus lines are parsed back and the replay '
+                'compared (betting actions, stacks, board); exact punctuation beyond the token structure is not re-specified')
+    run.need('parsed_back', 'cut_mid_hand', 'pluribus_lines', 'muck', 'op:CBR')
